@@ -158,23 +158,23 @@ Definition expected_shape : list (string * list string) :=
     ("EventsProcessor.process_response_received",
      ["call stream.headers_received.set()"; "get self.streams"; "set stream.headers <- {event.headers}"]);
     ("EventsProcessor.process_remote_settings_changed",
-     ["call self.connection.stream_close_waiter.set()"; "call stream.window_updated.set()"; "test {SettingCodes.INITIAL_WINDOW_SIZE, event.changed_settings}"; "test {SettingCodes.MAX_CONCURRENT_STREAMS, event.changed_settings}"; "values self.streams"]);
+     ["call self.connection.stream_close_waiter.set()"; "call stream.window_updated.set()"; "test SettingCodes.INITIAL_WINDOW_SIZE"; "test SettingCodes.MAX_CONCURRENT_STREAMS"; "test event.changed_settings"; "values self.streams"]);
     ("EventsProcessor.process_settings_acknowledged",
      []);
     ("EventsProcessor.process_data_received",
      ["call self.connection.ack({event.stream_id}; {event.flow_controlled_length})"; "call stream.buffer.add({event.data}; {event.flow_controlled_length})"; "get self.streams"; "set self.connection.data_received <- {+=, len(event.data)}"; "set self.connection.last_data_received <- {time.monotonic()}"; "set stream.data_received <- {+=, len(event.data)}"]);
     ("EventsProcessor.process_window_updated",
-     ["call stream.window_updated.set()"; "get self.streams"; "test {const:0, event.stream_id}"; "values self.streams"]);
+     ["call stream.window_updated.set()"; "get self.streams"; "test const:0"; "test event.stream_id"; "values self.streams"]);
     ("EventsProcessor.process_trailers_received",
      ["call stream.trailers_received.set()"; "get self.streams"; "set stream.trailers <- {event.headers}"]);
     ("EventsProcessor.process_stream_ended",
      ["call stream.__ended__()"; "get self.streams"; "set self.connection.streams_succeeded <- {+=, const:1}"]);
     ("EventsProcessor.process_stream_reset",
-     ["call self.handler.cancel({stream})"; "call stream.__terminated__({event.error_code, str:Protocol error, str:Stream reset by remote party, error_code: {}})"; "get self.streams"; "set self.connection.streams_failed <- {+=, const:1}"; "test {event.remote_reset}"]);
+     ["call self.handler.cancel({stream})"; "call stream.__terminated__({event.error_code, str:Protocol error, str:Stream reset by remote party, error_code: })"; "get self.streams"; "set self.connection.streams_failed <- {+=, const:1}"; "test event.remote_reset"]);
     ("EventsProcessor.process_priority_updated",
      []);
     ("EventsProcessor.process_connection_terminated",
-     ["call self.close({event.error_code, str:Received GOAWAY frame, closing connection; error_code: {}})"]);
+     ["call self.close({event.error_code, str:Received GOAWAY frame, closing connection; error_code: })"]);
     ("EventsProcessor.process_ping_received",
      []);
     ("EventsProcessor.process_ping_ack_received",
@@ -182,21 +182,21 @@ Definition expected_shape : list (string * list string) :=
     ("EventsProcessor.close",
      ["call self.connection.close()"; "call self.handler.close()"; "call stream.__terminated__({reason})"; "del-tolerant self.processors"; "values self.streams"]);
     ("Connection.ack",
-     ["call self._.acknowledge_received_data({size}; {arg1})"; "call self.flush()"; "test {size}"]);
+     ["call self._.acknowledge_received_data({size}; {arg1})"; "call self.flush()"; "test size"]);
     ("Stream.__terminated__",
      ["call self.wrapper.cancel({new:StreamTerminatedError, reason})"]);
     ("Stream.__ended__",
      ["call self.buffer.eof()"; "call self.trailers_received.set()"]);
     ("Stream.closable",
-     ["call self._.is_closing()"; "call self._.streams.get({self.id})"; "returns {self._.streams.get().closed}"; "test {ConnectionState.CLOSED, self._.state_machine.state}"; "test {self._.is_closing()}"]);
+     ["call self._.is_closing()"; "call self._.streams.get({self.id})"; "returns {self._.streams.get().closed}"; "test ConnectionState.CLOSED"; "test self._.is_closing()"; "test self._.state_machine.state"]);
     ("Stream.reset_nowait",
-     ["call self._.data_to_send()"; "call self._.reset_stream({self.id}; {arg1})"; "call self._.write({self._.data_to_send()})"; "call self.connection.write_ready.is_set()"; "test {self.connection.write_ready.is_set()}"]);
+     ["call self._.data_to_send()"; "call self._.reset_stream({self.id}; {arg1})"; "call self._.write({self._.data_to_send()})"; "call self.connection.write_ready.is_set()"; "test self.connection.write_ready.is_set()"]);
     ("H2Protocol.data_received",
      ["call self.connection.feed({data})"; "call self.connection.flush()"; "call self.processor.close({str:Protocol error})"; "call self.processor.process({self.connection.feed()})"; "catch ProtocolError, UnicodeDecodeError"]);
     ("H2Protocol.connection_lost",
      ["call self.processor.close({str:Connection lost})"]);
     ("client.Handler.accept",
-     ["call release_stream()"; "call stream.reset_nowait({ErrorCodes.REFUSED_STREAM})"; "test {stream.closable}"]);
+     ["call release_stream()"; "call stream.reset_nowait({ErrorCodes.REFUSED_STREAM})"; "test stream.closable"]);
     ("client.Handler.cancel",
      []);
     ("client.Handler.close",
